@@ -81,55 +81,601 @@ func zzC09MakeTab(alpha string) (tab [256]uint8) {
 	return
 }
 
-// zzC09FmtIntBound bounds the symbolic fixnum argument of C09.format (its
-// decimal text is inspected digit by digit by ~R and ~:D).
-const zzC09FmtIntBound = 100000
+// zzC09FmtGrid: the concrete integers given to the radix directive (its code
+// walks the decimal digits one table lookup per digit, so a symbolic integer
+// would be enumerated value by value anyway).
+var zzC09FmtGrid = []int64{0, 1, 4, 9, 10, 14, 19, 20, 21, 99, 100, 101, 110, 999, 1000, 1001, 1100, 2000, 3999, 4000, 10000,
+	100000, 1000000, 1000001, 1000000000, 1234567, -1, -10, -1000, -4000, 9223372036854775807, -9223372036854775808}
 
-// zzC09FmtArg builds argument number i of kind k: 0 symbolic fixnum, 1 short
-// string, 2 short list, 3 nil.
-func zzC09FmtArg(i, k int) slip.Object {
+// zzC09FmtArg builds argument number i of kind k: 0 symbolic fixnum (full
+// range), 1 short string, 2 short list, 3 nil, 4 character, 5 double-float.
+func zzC09FmtArg(i, k int, ints *[]int64) slip.Object {
 	switch k {
 	case 0:
 		x := vrt.Int64("arg" + string(rune('0'+i)))
-		vrt.Assume(-zzC09FmtIntBound < x && x < zzC09FmtIntBound)
+		zzC09Gap(x)
+		*ints = append(*ints, x)
 		return slip.Fixnum(x)
 	case 1:
 		return slip.String("ab")
 	case 2:
 		return zzC09Quote(slip.List{slip.Fixnum(1), slip.Fixnum(2)})
+	case 4:
+		return slip.Character('a')
+	case 5:
+		return slip.DoubleFloat(1.5)
 	}
 	return nil
 }
 
-// VerifC09Format: (format nil <control> args...) with a control string of n
-// symbolic bytes over the directive alphabet (the first byte is `~` when
-// tilde != 0) and the arguments selected by k0, k1 (-1: absent).
-func VerifC09Format(n, tilde, k0, k1 int) {
+func zzC09FmtCtl(n int) []byte {
 	ctl := vrt.Bytes("ctl", n)
 	for i := range ctl {
 		vrt.Assume(zzC09FmtTab[ctl[i]] == 1)
 	}
+	return ctl
+}
+
+// VerifC09Format: (format nil <control> args...) with a control string of n
+// symbolic bytes over the directive alphabet (the first byte is `~` when
+// tilde != 0) and the arguments selected by k0, k1 (-1: absent).  The text of
+// a symbolic integer is not modelled (opaque_int_text), so control strings
+// containing the radix directive letter are left to VerifC09FormatRadix when
+// an argument is a symbolic fixnum.
+func VerifC09Format(n, tilde, k0, k1 int) {
+	ctl := zzC09FmtCtl(n)
 	if tilde != 0 && 0 < n {
 		vrt.Assume(ctl[0] == '~')
 	}
-	form := slip.List{slip.Symbol("format"), nil, slip.String(ctl)}
-	if 0 <= k0 {
-		form = append(form, zzC09FmtArg(0, k0))
-		if 0 <= k1 {
-			form = append(form, zzC09FmtArg(1, k1))
+	if k0 == 0 || k1 == 0 {
+		for i := range ctl {
+			vrt.Assume(ctl[i] != 'r')
 		}
 	}
+	var ints []int64
+	form := slip.List{slip.Symbol("format"), nil, slip.String(ctl)}
+	if 0 <= k0 {
+		form = append(form, zzC09FmtArg(0, k0, &ints))
+		if 0 <= k1 {
+			form = append(form, zzC09FmtArg(1, k1, &ints))
+		}
+	}
+	zzC09FmtCarves(ctl, k0, k1, ints)
+	zzC09Streams()
+	zzC09Guarded(slip.NewScope(), form, ints)
+}
+
+// VerifC09FormatRadix: "~" + (n-2) symbolic bytes + "r" with the concrete
+// integer zzC09FmtGrid[g] as the only argument.
+func VerifC09FormatRadix(n, g int) {
+	ctl := zzC09FmtCtl(n)
+	vrt.Assume(ctl[0] == '~' && ctl[n-1] == 'r')
+	form := slip.List{slip.Symbol("format"), nil, slip.String(ctl), slip.Fixnum(zzC09FmtGrid[g])}
+	zzC09RadixCarves(ctl, zzC09FmtGrid[g])
+	zzC09Streams()
+	zzC09Guarded(slip.NewScope(), form, nil)
+}
+
+// zzC09FmtCarves: regions of the recorded findings of C09.format.
+func zzC09FmtCarves(ctl []byte, k0, k1 int, ints []int64) {
+}
+
+// zzC09RadixCarves: regions of the recorded findings of C09.format.radix.
+func zzC09RadixCarves(ctl []byte, x int64) {
+}
+
+// ---- common runner ----
+
+const (
+	zzC09Steps     = 400000 // SSA instructions per guarded evaluation
+	zzC09Decisions = 150    // symbolic decisions per guarded evaluation
+	zzC09Small     = 8      // integers in (zzC09Small, 2^31] are not explored (see zzC09Gap)
+	zzC09Huge      = int64(1) << 31
+)
+
+// zzC09Guarded evaluates form under the guard; ints are the symbolic integers
+// of the case (sizes, counts, indexes).
+func zzC09Guarded(scope *slip.Scope, form slip.Object, ints []int64) {
+	class := zzC09Value
+	cut := zzC09Guard(zzC09Steps, zzC09Decisions, func() { class = zzC09Eval(scope, form) })
+	vrt.Reach("evaluated")
+	vrt.Assert(cut != 1, "allocation whose size can exceed 2^31 elements")
+	if cut == 2 {
+		// an allocation of 65..2^31 elements: allowed, not explored further
+		vrt.Reach("large-allocation-cut")
+		return
+	}
+	if cut == 3 {
+		// the evaluation did not finish within the budget: if an integer
+		// argument can be above 2^31 here, the work is bounded by that argument
+		// only (the native replay of the model runs under a 10 s / 2 GiB watchdog)
+		for _, x := range ints {
+			vrt.Assert(x <= zzC09Huge, "work bounded only by an integer argument that can exceed 2^31 (hang / unbounded allocation)")
+		}
+		vrt.Unsupported("evaluation exceeds the step budget although every integer argument is at most 2^31")
+		return
+	}
+	if cut == 4 {
+		vrt.Unsupported("evaluation forks more often than the decision budget")
+		return
+	}
+	zzC09Check(class)
+}
+
+// zzC09Gap assumes x outside (zzC09Small, 2^31]: sizes and counts in that
+// range are legitimate work for the code under test (allocation and loops
+// proportional to the argument) which the engine would unroll value by value;
+// they behave like "larger than every sequence of the case" for indexes.
+func zzC09Gap(x int64) {
+	vrt.Assume(uint64(x-(zzC09Small+1)) > uint64(zzC09Huge-(zzC09Small+1)))
+}
+
+// ---- (c) index arithmetic ----
+
+// zzC09IdxRow is one call shape.  Placeholders (symbols) in tmpl: S the
+// sequence under test, T a second sequence of the same type (length 2), A B C
+// symbolic fixnums (full range), X an element of S, Y another element value.
+// kinds: which sequence types apply (l list, v vector, s string, b bit-vector);
+// "-" = no sequence (one case).
+type zzC09IdxRow struct {
+	tmpl  string
+	kinds string
+}
+
+var zzC09IdxRows = []zzC09IdxRow{
+	{"(subseq S A)", "lvsb"},                                                        // 0
+	{"(subseq S A B)", "lvsb"},                                                      // 1
+	{"(nth A S)", "l"},                                                              // 2
+	{"(nthcdr A S)", "l"},                                                           // 3
+	{"(butlast S A)", "l"},                                                          // 4
+	{"(nbutlast S A)", "l"},                                                         // 5
+	{"(last S A)", "l"},                                                             // 6
+	{"(elt S A)", "lvsb"},                                                           // 7
+	{"(aref S A)", "vsb"},                                                           // 8
+	{"(svref S A)", "v"},                                                            // 9
+	{"(char S A)", "s"},                                                             // 10
+	{"(schar S A)", "s"},                                                            // 11
+	{"(bit S A)", "b"},                                                              // 12
+	{"(sbit S A)", "b"},                                                             // 13
+	{"(fill S Y :start A :end B)", "lvsb"},                                          // 14
+	{"(replace S T :start1 A :end1 B)", "lvsb"},                                     // 15
+	{"(replace S T :start2 A :end2 B)", "lvsb"},                                     // 16
+	{"(search T S :start1 A :end1 B)", "lvsb"},                                      // 17
+	{"(search T S :start2 A :end2 B)", "lvsb"},                                      // 18
+	{"(mismatch S T :start1 A :end1 B)", "lvsb"},                                    // 19
+	{"(mismatch S T :start2 A :end2 B)", "lvsb"},                                    // 20
+	{"(position X S :start A :end B)", "lvsb"},                                      // 21
+	{"(position X S :start A :end B :from-end t)", "lvsb"},                          // 22
+	{"(find X S :start A :end B)", "lvsb"},                                          // 23
+	{"(count X S :start A :end B)", "lvsb"},                                         // 24
+	{"(remove X S :start A :end B)", "lvsb"},                                        // 25
+	{"(remove X S :count A)", "lvsb"},                                               // 26
+	{"(delete X S :start A :end B)", "lvsb"},                                        // 27
+	{"(delete X S :count A)", "lvsb"},                                               // 28
+	{"(substitute Y X S :start A :end B)", "lvsb"},                                  // 29
+	{"(substitute Y X S :count A)", "lvsb"},                                         // 30
+	{"(nsubstitute Y X S :start A :end B)", "lvsb"},                                 // 31
+	{"(nsubstitute Y X S :count A)", "lvsb"},                                        // 32
+	{"(position-if (function identity) S :start A :end B)", "lv"},                   // 33
+	{"(find-if (function identity) S :start A :end B)", "lv"},                       // 34
+	{"(count-if (function identity) S :start A :end B)", "lv"},                      // 35
+	{"(remove-if (function identity) S :start A :end B)", "lv"},                     // 36
+	{"(remove-if (function identity) S :count A)", "lv"},                            // 37
+	{"(delete-if (function identity) S :start A :end B)", "lv"},                     // 38
+	{"(substitute-if Y (function identity) S :start A :end B)", "lv"},               // 39
+	{"(nsubstitute-if Y (function identity) S :start A :end B)", "lv"},              // 40
+	{"(remove-duplicates S :start A :end B)", "lvs"},                                // 41
+	{"(delete-duplicates S :start A :end B)", "lvs"},                                // 42
+	{"(reduce (function list) S :start A :end B)", "lv"},                            // 43
+	{"(make-list A)", "-"},                                                          // 44
+	{"(make-string A)", "-"},                                                        // 45
+	{"(make-array A)", "-"},                                                         // 46
+	{"(make-array (list A B))", "-"},                                                // 47
+	{"(make-array A :element-type (quote bit))", "-"},                               // 48
+	{"(make-sequence (quote list) A)", "-"},                                         // 49
+	{"(make-sequence (quote string) A)", "-"},                                       // 50
+	{"(make-sequence (quote vector) A)", "-"},                                       // 51
+	{"(string-upcase S :start A :end B)", "s"},                                      // 52
+	{"(string-downcase S :start A :end B)", "s"},                                    // 53
+	{"(string-capitalize S :start A :end B)", "s"},                                  // 54
+	{"(nstring-upcase S :start A :end B)", "s"},                                     // 55
+	{"(nstring-downcase S :start A :end B)", "s"},                                   // 56
+	{"(nstring-capitalize S :start A :end B)", "s"},                                 // 57
+	{"(string= S T :start1 A :end1 B)", "s"},                                        // 58
+	{"(string= S T :start2 A :end2 B)", "s"},                                        // 59
+	{"(string< S T :start1 A :end1 B)", "s"},                                        // 60
+	{"(string< S T :start2 A :end2 B)", "s"},                                        // 61
+	{"(string-equal S T :start1 A :end1 B)", "s"},                                   // 62
+	{"(string-lessp S T :start2 A :end2 B)", "s"},                                   // 63
+	{"(string/= S T :start1 A :end2 B)", "s"},                                       // 64
+	{"(string> S T :start1 A :end1 B)", "s"},                                        // 65
+	{"(string-not-equal S T :start1 A :end1 B)", "s"},                               // 66
+	{"(parse-integer S :start A :end B)", "s"},                                      // 67
+	{"(parse-integer S :radix A)", "s"},                                             // 68
+	{"(read-from-string S nil nil :start A :end B)", "s"},                           // 69
+	{"(write-string S nil :start A :end B)", "s"},                                   // 70
+	{"(write-line S nil :start A :end B)", "s"},                                     // 71
+	{"(write-sequence S *standard-output* :start A :end B)", "lvs"},                 // 72
+	{"(make-string-input-stream S A B)", "s"},                                       // 73
+	{"(with-input-from-string (zzs S :start A :end B) (read-char zzs nil))", "s"},   // 74
+	{"(ash A B)", "-"},                                                              // 75
+	{"(expt A B)", "-"},                                                             // 76
+	{"(gi:string-repeat \"ab\" A)", "-"},                                            // 77
+	{"(logbitp A B)", "-"},                                                          // 78
+	{"(ldb (byte A B) -5)", "-"},                                                    // 79
+	{"(dpb -3 (byte A B) 5)", "-"},                                                  // 80
+	{"(ldb-test (byte A B) -5)", "-"},                                               // 81
+	{"(mask-field (byte A B) -5)", "-"},                                             // 82
+	{"(deposit-field -3 (byte A B) 5)", "-"},                                        // 83
+	{"(code-char A)", "-"},                                                          // 84
+	{"(digit-char A B)", "-"},                                                       // 85
+	{"(digit-char-p #\\a A)", "-"},                                                  // 86
+	{"(make-string A :initial-element #\\a)", "-"},                                  // 87
+	{"(make-list A :initial-element 1)", "-"},                                       // 88
+	{"(adjust-array S A)", "vsb"},                                                   // 89
+	{"(row-major-aref S A)", "vsb"},                                                 // 90
+	{"(array-dimension S A)", "vsb"},                                                // 91
+	{"(array-in-bounds-p S A)", "vsb"},                                              // 92
+	{"(array-row-major-index S A)", "vsb"},                                          // 93
+	{"(aref (make-array (quote (2 2))) A B)", "-"},                                  // 94
+	{"(array-row-major-index (make-array (quote (2 2))) A B)", "-"},                 // 95
+	{"(setf (aref S A) Y)", "vsb"},                                                  // 96
+	{"(setf (elt S A) Y)", "lvsb"},                                                  // 97
+	{"(setf (nth A S) Y)", "l"},                                                     // 98
+	{"(setf (subseq S A B) T)", "lvsb"},                                             // 99
+	{"(setf (char S A) Y)", "s"},                                                    // 100
+	{"(setf (bit S A) Y)", "b"},                                                     // 101
+	{"(floor A B)", "-"},                                                            // 102
+	{"(ceiling A B)", "-"},                                                          // 103
+	{"(truncate A B)", "-"},                                                         // 104
+	{"(round A B)", "-"},                                                            // 105
+	{"(mod A B)", "-"},                                                              // 106
+	{"(rem A B)", "-"},                                                              // 107
+	{"(/ A B)", "-"},                                                                // 108
+	{"(gi:make-octets A)", "-"},                                                     // 109
+	{"(nthcdr A (quote (1 2 . 3)))", "-"},                                           // 110
+	{"(butlast (quote (1 2 . 3)) A)", "-"},                                          // 111
+	{"(random A)", "-"},                                                             // 112
+	{"(dotimes (zzi A) nil)", "-"},                                                  // 113
+	{"(vector-push-extend Y S A)", "v"},                                             // 114
+	{"(make-array 2 :fill-pointer A)", "-"},                                         // 115
+	{"(setf (fill-pointer (make-array 3 :fill-pointer 1)) A)", "-"},                 // 116
+	{"(make-hash-table :size A)", "-"},                                              // 117
+	{"(nth-value A (values 1 2))", "-"},                                             // 118
+	{"(list-length S)", "l"},                                                        // 119
+	{"(string-left-trim T S)", "s"},                                                 // 120
+	{"(concatenate (quote string) S T)", "s"},                                       // 121
+	{"(map-into S (function identity) T)", "lv"},                                    // 122
+	{"(boole A B C)", "-"},                                                          // 123
+	{"(scale-float 1.5 A)", "-"},                                                    // 124
+	{"(float-sign 1.0 2.0)", "-"},                                                   // 125
+	{"(byte-size (byte A B))", "-"},                                                 // 126
+	{"(last (quote (1 2 . 3)) A)", "-"},                                             // 127
+	{"(peek-char nil (make-string-input-stream S A))", "s"},                         // 128
+	{"(file-position (make-string-input-stream S) A)", "s"},                         // 129
+	{"(read-sequence S (make-string-input-stream \"xyz\") :start A :end B)", "lvs"}, // 130
+	{"(subseq S A nil)", "lvsb"},                                                    // 131
+	{"(bit-and S T)", "b"},                                                          // 132
+	{"(bit-not S)", "b"},                                                            // 133
+	{"(bit-xor S T S)", "b"},                                                        // 134
+	{"(format nil \"~vd\" A 1)", "-"},                                               // 135
+}
+
+const zzC09KindChars = "lvsb"
+
+// zzC09Seq builds the sequence literal of a kind and length by evaluating
+// Lisp text (concrete).
+func zzC09Seq(scope *slip.Scope, kind byte, n int) slip.Object {
+	var src string
+	switch kind {
+	case 'l':
+		src = []string{"nil", "(list 1)", "(list 1 2)", "(list 1 2 3)", "(list 1 2 3 2)"}[n]
+	case 'v':
+		src = []string{"(vector)", "(vector 1)", "(vector 1 2)", "(vector 1 2 3)", "(vector 1 2 3 2)"}[n]
+	case 's':
+		src = []string{"(copy-seq \"\")", "(copy-seq \"a\")", "(copy-seq \"ab\")", "(copy-seq \"abc\")", "(copy-seq \"abcb\")"}[n]
+	default:
+		src = []string{"(make-array 0 :element-type 'bit)", "(copy-seq #*1)", "(copy-seq #*10)", "(copy-seq #*101)", "(copy-seq #*1011)"}[n]
+	}
+	return slip.ReadString(src, scope).Eval(scope, nil)
+}
+
+// zzC09Subst replaces the placeholder symbols in a form read from a template.
+func zzC09Subst(obj slip.Object, env map[string]slip.Object) slip.Object {
+	switch to := obj.(type) {
+	case slip.Symbol:
+		if v, has := env[string(to)]; has {
+			return v
+		}
+	case slip.List:
+		out := make(slip.List, len(to))
+		for i := range to {
+			out[i] = zzC09Subst(to[i], env)
+		}
+		return out
+	}
+	return obj
+}
+
+func zzC09HasSym(obj slip.Object, name string) bool {
+	switch to := obj.(type) {
+	case slip.Symbol:
+		return string(to) == name
+	case slip.List:
+		for i := range to {
+			if zzC09HasSym(to[i], name) {
+				return true
+			}
+		}
+	}
+	return false
+}
+
+// VerifC09Index: row of zzC09IdxRows, sequence kind (index into "lvsb") and
+// length 0..3; A, B, C are symbolic fixnums over the full int64 range.
+func VerifC09Index(row, kind, n int) {
+	r := zzC09IdxRows[row]
 	zzC09Streams()
 	scope := slip.NewScope()
-	class := zzC09Eval(scope, form)
-	vrt.Reach("formatted")
-	zzC09Check(class)
+	code := slip.ReadString(r.tmpl, scope)
+	tmpl := code[0]
+	env := map[string]slip.Object{}
+	if r.kinds != "-" {
+		k := zzC09KindChars[kind]
+		applies := false
+		for i := 0; i < len(r.kinds); i++ {
+			if r.kinds[i] == k {
+				applies = true
+			}
+		}
+		if !applies {
+			vrt.Reach("evaluated")
+			return
+		}
+		env["S"] = zzC09Quote(zzC09Seq(scope, k, n))
+		env["T"] = zzC09Quote(zzC09Seq(scope, k, 2))
+		switch k {
+		case 's':
+			env["X"] = slip.Character('b')
+			env["Y"] = slip.Character('z')
+		case 'b':
+			env["X"] = slip.Fixnum(1)
+			env["Y"] = slip.Fixnum(0)
+		default:
+			env["X"] = slip.Fixnum(2)
+			env["Y"] = slip.Fixnum(9)
+		}
+	}
+	var ints []int64
+	for _, name := range []string{"A", "B", "C"} {
+		if zzC09HasSym(tmpl, name) {
+			x := vrt.Int64(name)
+			zzC09Gap(x)
+			ints = append(ints, x)
+			env[name] = slip.Fixnum(x)
+		}
+	}
+	form := zzC09Subst(tmpl, env)
+	zzC09IdxCarves(row, kind, n, ints)
+	zzC09Guarded(scope, form, ints)
+}
+
+// zzC09IdxCarves: regions of the recorded findings of C09.index.
+func zzC09IdxCarves(row, kind, n int, ints []int64) {
+}
+
+// ---- (d) type tuples ----
+
+// zzC09PoolSize is the number of representative argument objects.
+const zzC09PoolSize = 12
+
+// zzC09PoolName documents the pool (index = object kind).
+var zzC09PoolName = [zzC09PoolSize]string{"fixnum", "bignum", "ratio", "double-float", "string", "symbol", "keyword",
+	"character", "list", "vector", "hash-table", "nil"}
+
+// zzC09PoolObj builds pool object k.  The fixnum is symbolic (full range) when
+// sym is set, 3 otherwise.
+func zzC09PoolObj(scope *slip.Scope, k int, name string, sym bool) slip.Object {
+	switch k {
+	case 0:
+		if sym {
+			return slip.Fixnum(vrt.Int64(name))
+		}
+		return slip.Fixnum(3)
+	case 1:
+		return slip.ReadString("1180591620717411303424", scope)[0] // 2^70
+	case 2:
+		return slip.ReadString("1/3", scope)[0]
+	case 3:
+		return slip.DoubleFloat(1.5)
+	case 4:
+		return slip.String("ab")
+	case 5:
+		return slip.Symbol("zzc09sym")
+	case 6:
+		return slip.Symbol(":zzc09key")
+	case 7:
+		return slip.Character('a')
+	case 8:
+		return slip.List{slip.Fixnum(1), slip.Fixnum(2)}
+	case 9:
+		return slip.ReadString("(vector 1 2)", scope).Eval(scope, nil)
+	case 10:
+		return slip.ReadString("(make-hash-table)", scope).Eval(scope, nil)
+	}
+	return nil
+}
+
+// zzC09ArgForm: the form that makes a function receive obj: obj itself when
+// the function does not evaluate that argument (special forms and macros see
+// the raw object) or when it evaluates to itself, (quote obj) for symbols and
+// lists.
+func zzC09ArgForm(obj slip.Object, skipEval bool) slip.Object {
+	if skipEval {
+		return obj
+	}
+	switch to := obj.(type) {
+	case slip.List:
+		return zzC09Quote(to)
+	case slip.Symbol:
+		if 0 < len(to) && to[0] == ':' {
+			return to
+		}
+		return zzC09Quote(to)
+	}
+	return obj
+}
+
+// zzC09TupleExcluded lists the built-ins VerifC09Tuple does not call, with
+// the reason (the first three groups are the exclusions of the C04 arity check).
+var zzC09TupleExcluded = map[string]string{
+	// change the state of the checking process or of the machine
+	"gi:clearenv":    "clears the environment of the checking process",
+	"gi:setenv":      "changes the environment of the checking process",
+	"gi:unsetenv":    "changes the environment of the checking process",
+	"gi:send-signal": "sends a signal to a process",
+	"gi:run":         "starts a goroutine",
+	"gi:make-app":    "writes an application directory and runs the Go tool chain",
+	// block, sleep or never return
+	"common-lisp:sleep": "sleeps",
+	"common-lisp:loop":  "(loop) without clauses never returns",
+	"gi:signal-wait":    "blocks until a signal arrives",
+	"gi:select":         "blocks on channels",
+	"gi:time-after":     "starts a timer goroutine",
+	"gi:time-ticker":    "starts a ticker goroutine",
+	"gi:channel-pop":    "blocks on an empty channel",
+	"gi:channel-push":   "blocks on a full channel",
+	"gi:range":          "blocks on a channel",
+	"gi:read-push":      "pushes to a channel (blocks when full)",
+	// create, modify or delete files
+	"common-lisp:open":                     "creates files",
+	"common-lisp:delete-file":              "deletes files",
+	"common-lisp:rename-file":              "renames files",
+	"common-lisp:ensure-directories-exist": "creates directories",
+	"common-lisp:dribble":                  "creates a file and redirects the standard streams",
+	"common-lisp:load":                     "reads and evaluates a file",
+	"common-lisp:require":                  "reads and evaluates files",
+	"common-lisp:with-open-file":           "creates files",
+	"gi:encrypt-file":                      "writes files",
+	"gi:decrypt-file":                      "writes files",
+	"gi:save":                              "writes a file",
+	"bag:load-bag":                         "reads a file",
+	// raises a Go panic by design
+	"gi:panic": "raises its argument as a Go panic (the documented purpose of the function)",
+	// the engine cannot execute the body (native runtime / OS structures)
+	"gi:unzip":                "compress/gzip over an interpreted reader",
+	"gi:zip":                  "compress/gzip over an interpreted writer",
+	"common-lisp:file-author": "syscall.Stat",
+	"common-lisp:lisp-implementation-version": "reads runtime/debug build info",
+	"common-lisp:machine-instance":            "os.Hostname",
+	"common-lisp:room":                        "runtime.ReadMemStats",
+	"gi:memstat":                              "runtime.ReadMemStats",
+	"gi:snapshot":                             "walks native runtime structures",
+	"common-lisp:print-unreadable-object":     "prints the address of its argument (uintptr conversion)",
+	"bag:discover-json":                       "ojg discover with an interpreted callback",
+}
+
+func zzC09Find(key string) *slip.FuncInfo {
+	for i := 0; i < len(key); i++ {
+		if key[i] == ':' {
+			p := slip.FindPackage(key[:i])
+			if p == nil {
+				return nil
+			}
+			return p.GetFunc(key[i+1:])
+		}
+	}
+	return nil
+}
+
+// VerifC09Registry: the table zzC09Names is exactly the registry built by the
+// package inits, so "every function" is every function; the exclusion list
+// only names registry functions.
+func VerifC09Registry() {
+	inTable := map[string]bool{}
+	for i := 0; i < len(zzC09Names); i++ {
+		vrt.Assert(!inTable[zzC09Names[i]], "duplicate entry in the C09 function table")
+		inTable[zzC09Names[i]] = true
+	}
+	count := 0
+	for _, pn := range []string{"bag", "clos", "common-lisp", "flavors", "generic", "gi"} {
+		p := slip.FindPackage(pn)
+		vrt.Assert(p != nil && p.Name == pn, "package missing")
+		missing := 0
+		p.EachFuncInfo(func(fi *slip.FuncInfo) {
+			if fi.Pkg != p {
+				return
+			}
+			count++
+			if !inTable[pn+":"+fi.Name] {
+				missing++
+			}
+		})
+		vrt.Assert(missing == 0, "a registry function is missing from the C09 function table (regenerate it)")
+	}
+	vrt.Assert(count == len(zzC09Names), "the C09 function table has entries that are not in the registry")
+	for key := range zzC09TupleExcluded {
+		vrt.Assert(inTable[key], "exclusion list names an unknown function")
+	}
+	vrt.Note("functions", count, "excluded", len(zzC09TupleExcluded))
+	vrt.Reach("registry")
+}
+
+func zzC09EvalFunc(scope *slip.Scope, fi *slip.FuncInfo, objs []slip.Object) (class int) {
+	defer func() {
+		if rec := recover(); rec != nil {
+			class = zzC09Classify(rec)
+		}
+	}()
+	probe := fi.Create(nil)
+	se, _ := probe.(interface{ SkipArgEval(int) bool })
+	forms := make(slip.List, len(objs))
+	for i := range objs {
+		forms[i] = zzC09ArgForm(objs[i], se != nil && se.SkipArgEval(i))
+	}
+	scope.Eval(fi.Create(forms), 0)
+	return zzC09Value
+}
+
+// VerifC09Tuple: function idx of the registry table called with one argument
+// (a0 == -1: every pool object in turn) or with two (a0 >= 0: pool object a0
+// first, every pool object in turn second).
+func VerifC09Tuple(idx, a0 int) {
+	key := zzC09Names[idx]
+	fi := zzC09Find(key)
+	vrt.Assert(fi != nil, "table entry is not in the registry")
+	if _, ex := zzC09TupleExcluded[key]; ex {
+		vrt.Reach("excluded")
+		return
+	}
+	zzC09Streams()
+	for a1 := 0; a1 < zzC09PoolSize; a1++ {
+		scope := slip.NewScope()
+		var objs []slip.Object
+		if a0 < 0 {
+			objs = []slip.Object{zzC09PoolObj(scope, a1, "x0", false)}
+		} else {
+			objs = []slip.Object{zzC09PoolObj(scope, a0, "x0", false), zzC09PoolObj(scope, a1, "x1", false)}
+		}
+		zzC09TupleCarves(key, a0, a1)
+		class := zzC09Value
+		cut := zzC09Guard(zzC09Steps, zzC09Decisions, func() { class = zzC09EvalFunc(scope, fi, objs) })
+		vrt.Note("class", key, a0, a1, class, cut)
+		vrt.Reach("called")
+		vrt.Assert(cut == 0, "evaluation does not finish within its budget")
+		zzC09Check(class)
+	}
+}
+
+// zzC09TupleCarves: regions of the recorded findings of C09.tuple.
+func zzC09TupleCarves(key string, a0, a1 int) {
 }
 
 // zzC09Guard runs f (which recovers its own panics) and reports how it ended:
 // 0 it returned; 1 it allocated without bound; 2 (engine only) it reached an
 // allocation of 65..2^31 elements, which the engine does not explore further;
-// 3 it did not finish within its budget.  In the engine this function is an
+// 3 it did not finish within its budget of steps (natively: of time); 4
+// (engine only) it forked more often than its budget of symbolic decisions.  In the engine this function is an
 // intrinsic (/verif/engine/x_c09.go): budgets are SSA instructions and
 // symbolic decisions, "without bound" means an allocation whose symbolic size
 // can exceed 2^31 elements under the path condition.  Natively (replay of a
